@@ -123,7 +123,8 @@ def _rel_form(shape):
             segs.append(vec)
             cur = s[-1]
     radii = [[mil(s[1]), mil(s[2])] for _, ss in shape for s in ss if s[0] == "A"]
-    return {"m": [mil(first[0]), mil(first[1])], "segs": segs, "radii": radii}
+    flags = [[int(s[4]), int(s[5])] for _, ss in shape for s in ss if s[0] == "A"]
+    return {"m": [mil(first[0]), mil(first[1])], "segs": segs, "radii": radii, "flags": flags}
 
 
 def job(j):
@@ -184,6 +185,17 @@ def jobs_for(tier, rng):
                      for st, sgs in t]
             for tol in tols:
                 jobs.append((SHAPES["pill"], wrong, tol, "any", "pill->%s radii x%s" % (tn, fct)))
+    # same vertices and radii, wrong arc flags: a mirror image has its sweep flags flipped, anything else
+    # keeps them, the large-arc flag never changes - whatever the tolerance
+    def reflag(shape, large=False, sweep=False):
+        return [(st, [(sg[:4] + ((1 - sg[4]) if large else sg[4], (1 - sg[5]) if sweep else sg[5]) + sg[6:])
+                      if sg[0] == "A" else sg for sg in sgs]) for st, sgs in shape]
+    for tn in ("translate", "rot90", "rot345", "mirrorx", "mirrory+rot"):
+        t = apply(TRANSFORMS[tn], SHAPES["pill"])          # (flags as in the source: right unless mirrored)
+        mirrored = tn.startswith("mirror")
+        for tol in tols:
+            jobs.append((SHAPES["pill"], reflag(t, sweep=not mirrored), tol, "any", "pill->%s sweep-wrong" % tn))
+            jobs.append((SHAPES["pill"], reflag(t, large=True, sweep=mirrored), tol, "any", "pill->%s large-wrong" % tn))
     extra_contour = ((20, 20), [("L", (24, 20)), ("L", (22, 25)), ("Z",)])
     for n in names:
         s = SHAPES[n]
